@@ -407,4 +407,23 @@ def no_stale(ctx):
                        'a repeated query depends on what was computed before')
 
 
-RULES = [no_stale, pure, inverted_fresh, no_param_mutation, reset_first, rng_sites]
+def newton_batch(ctx):
+    # batch independence of the iterative intersection: the convergence test
+    # is the maximum of |dz| over all rays of the call
+    from .C02 import on_surface
+    r = on_surface(ctx)
+    keep = [f for f in r.findings if 'Newton' in f.construct]
+    out = Result('NEWTON-BATCH', 'the iterative intersection stops only when '
+                 'every ray of the batch has |dz| < tol, steps stay on each '
+                 'ray: one ray\'s result does not depend on its companions '
+                 'beyond the tolerance')
+    out.analysed = r.analysed
+    for f in keep:
+        f.rule = 'NEWTON-BATCH'
+        out.fail(f)
+    if not keep:
+        out.ok('NewtonRaphsonGeometry.distance: batch-wide max |dz| < tol')
+    return out
+
+
+RULES = [no_stale, newton_batch, pure, inverted_fresh, no_param_mutation, reset_first, rng_sites]
